@@ -54,6 +54,13 @@ func Main(defs []PropDef) {
 	}
 	fmt.Printf("loaded %d module packages from %s/src (tests=%v) in %.1fs; main type errors tolerated: %d\n",
 		len(prog.Pkgs), core.RepoDir(), withTests, time.Since(start).Seconds(), prog.MainTypeErrors)
+	if len(prog.LoadErrors) > 0 {
+		// an ill-typed tree is not analysed: no verdict is given on garbage
+		for _, e := range prog.LoadErrors {
+			fmt.Printf("UNDECIDED load/typecheck: %s\n", e)
+		}
+		os.Exit(2)
+	}
 	exit := 0
 	ran := 0
 	for _, d := range defs {
